@@ -276,6 +276,22 @@ fn methods_block(cfg: &Cfg, out: &mut Vec<String>) {
 			let big = span(&p) > 16;
 			for v0 in &al[..2] {
 				let mut fam: Vec<(String, Vec<In>)> = seqs(&al3, if big { 2 } else { d }).into_iter().enumerate().map(|(si, s)| (format!("#{si}"), s)).collect();
+				if big {
+					// one long stream on which hardly two values are alike (order statistics, searches and rescans
+					// of long windows get something to do): golden-ratio Weyl sequence on 1024 levels
+					let n = 3 * span(&p) + 17;
+					let w: Vec<In> = (1..=n as u64)
+						.map(|k| {
+							let v = ((k as f64 * 0.618_033_988_749_894_9).fract() * 1024.0).floor() / 16.0 - 32.0;
+							match sp.input {
+								InKind::Value => In::V(v as ValueType),
+								InKind::Pair => In::P(v as ValueType, (1 + k % 4) as ValueType),
+								InKind::Candle => In::C(alpha::candle(v + 40.0, v + 41.0, v + 39.5, v + 40.5, (1 + k % 4) as f64)),
+							}
+						})
+						.collect();
+					fam.push(("weyl".to_string(), w));
+				}
 				if !big {
 					fam.extend(seqs(&mx[..3], d + 1).into_iter().enumerate().map(|(si, s)| (format!("mixed#{si}"), s)));
 					// third family: the ends of the value range (sums and doublings overflow, halves underflow)
@@ -304,7 +320,7 @@ fn methods_block(cfg: &Cfg, out: &mut Vec<String>) {
 					let r = catch(|| {
 						let mut t = String::new();
 						// long runs for large windows so that the ring wraps
-						let reps = if big { span(&p) + 3 } else { 1 };
+						let reps = if big && si != "weyl" { span(&p) + 3 } else { 1 };
 						for _ in 0..reps {
 							for x in s {
 								let o = m.next(x);
